@@ -31,7 +31,17 @@ class Interposer:
         self.active = False
         self.effects = []      # (kind, role, nbytes)
         self.log = log
+        self.ctx = "setup"       # which call of the main process the effects belong to
         self._saved = {}
+
+    @staticmethod
+    def path_number(path):
+        """The stored path a file-system object belongs to (load_dir/<number>/...), or None."""
+        parts = str(path).replace("\\", "/").split("/")
+        for i, part in enumerate(parts):
+            if part == "load" and i + 1 < len(parts) and parts[i + 1].isdigit():
+                return int(parts[i + 1])
+        return None
 
     @staticmethod
     def role(path):
@@ -64,6 +74,10 @@ class Interposer:
         idx = self.n
         self.n += 1
         self.effects.append([kind, self.role(path), 0])
+        if self.log:     # one line per effect, written before the effect happens (Crash.tla / TraceCrash.tla)
+            self.log.write(json.dumps({"ev": "_fx", "k": idx, "kind": kind, "role": self.role(path), "pn": self.path_number(path),
+                                       "ctx": self.ctx}) + "\n")
+            self.log.flush()
         if self.crash_at == idx:
             return self.mode
         return "go" if self.crash_at is None or idx < self.crash_at else "go"
@@ -192,7 +206,11 @@ def lifetime(root, inp, sched_seed, ip, events_path, steps=None, max_completions
             out.flush()
             return 3
         done = dump(done)
+        out.write(json.dumps({"ev": "_disk", "at": "start", "rows": rows_on_disk(seg), "active": sorted(int(t.path_number) for t in seg.state._trajs[:seg.N]),
+                              "next": int(seg.state.config["current"]["traj_num"])}) + "\n")
+        out.flush()
         ip.active = True
+        ip.ctx = "pick"
         for _ in seg.init_picks():
             ip.active = False
             done = dump(done)
@@ -200,6 +218,7 @@ def lifetime(root, inp, sched_seed, ip, events_path, steps=None, max_completions
         ncomp = 0
         while True:
             ip.active = True
+            ip.ctx = "loop"
             go = seg.loop()
             ip.active = False
             done = dump(done)
@@ -208,9 +227,17 @@ def lifetime(root, inp, sched_seed, ip, events_path, steps=None, max_completions
             pin = rnd.choice(sorted(seg.inflight))
             md = seg.run_job(pin)           # the worker: not a crash point of the main process
             ip.active = True
-            seg.complete(pin, md)
+            ip.ctx = "complete"
+            out.write(json.dumps({"ev": "_begin", "olds": [int(p) for p in md["pnum_old"]], "acc": md["status"] == "ACC"}) + "\n")
+            out.flush()
+            seg.complete(pin, md, do_pick=False)
+            ip.ctx = "pick"
+            seg.loop_pick()
             ip.active = False
             done = dump(done)
+            out.write(json.dumps({"ev": "_disk", "at": "complete", "rows": rows_on_disk(seg), "active": sorted(int(t.path_number) for t in seg.state._trajs[:seg.N]),
+                                  "next": int(seg.state.config["current"]["traj_num"])}) + "\n")
+            out.flush()
             ncomp += 1
             if max_completions is not None and ncomp >= max_completions:
                 break
